@@ -36,6 +36,7 @@ type acfg struct {
 	frag    bool   // message #0 is sent as two fragments
 	bursts  []int  // frames per burst (after the 101 response)
 	early   int    // leading frames sent in the same burst as the upgrade request (a client that does not wait)
+	nowait  bool   // the client does not wait for the 101 response before it sends its bursts / ends (not conforming either)
 	end     string // fin | rst | hclose | tclose
 	closeAt int    // hclose: index of the message whose handler calls Close
 	echo    bool   // the message handler answers with WriteMessage
@@ -49,7 +50,7 @@ func (c acfg) name() string {
 	if c.writers > 0 {
 		return fmt.Sprintf("engine-writers %s exec=%s writers=%d F=%d K=%d", c.mode, c.exec, c.writers, c.f, c.k)
 	}
-	return fmt.Sprintf("order %s exec=%s msgs=%d frag=%v bursts=%v early=%d end=%s@%d echo=%v", c.mode, c.exec, c.msgs, c.frag, c.bursts, c.early, c.end, c.closeAt, c.echo)
+	return fmt.Sprintf("order %s exec=%s msgs=%d frag=%v bursts=%v early=%d nowait=%v end=%s@%d echo=%v", c.mode, c.exec, c.msgs, c.frag, c.bursts, c.early, c.nowait, c.end, c.closeAt, c.echo)
 }
 
 const handshakeReq = "GET /ws HTTP/1.1\r\nHost: h\r\nConnection: Upgrade\r\nUpgrade: websocket\r\nSec-WebSocket-Version: 13\r\nSec-WebSocket-Key: dGhlIHNhbXBsZSBub25jZQ==\r\n\r\n"
@@ -156,7 +157,7 @@ func orderBody(c acfg) func() {
 			if !peer.WriteAll(first) {
 				return
 			}
-			for !bytes.Contains(peer.Got, []byte("\r\n\r\n")) {
+			for !c.nowait && !bytes.Contains(peer.Got, []byte("\r\n\r\n")) {
 				peer.WaitReadable()
 				if peer.Queued() == 0 {
 					return // the server went away before it answered
@@ -272,9 +273,7 @@ func orderBody(c acfg) func() {
 		if v := tr.Violations(); len(v) > 0 {
 			cnt["ownership_violations_reported_by_C11"] = len(v)
 		}
-		if e := logErrors(); e != "" {
-			w.failf("logged-error|nbio logged an error (a recovered panic?): %s", e)
-		}
+		w.logFailure()
 		lastCounters = cnt
 		lastOutcome = fmt.Sprintf("order: opened=%v delivered=%d closes=%d", opened, len(l.msgs), len(l.closes))
 		if c.writers > 0 {
